@@ -26,6 +26,7 @@ def check(tr):
     bracket_of = {}
     decided_at = {}
     resume_from = {}
+    final_level = {}
     rets = {e["s"]: e for e in tr.events if e["k"] == "s.ret"}
     reported = {}  # trial -> {level: metric}
     delivered = {}  # trial -> list of levels delivered while the trial was live (in order)
@@ -74,6 +75,10 @@ def check(tr):
         elif m in ("on_trial_remove", "on_trial_complete", "on_trial_error"):
             ended = str(t)
             live.discard(ended)
+            if m == "on_trial_complete" and c.get("result"):
+                # the final result of a trial that completed on its own is passed on to the searcher (if not used yet)
+                final_level.setdefault(ended, set()).add(int(c["result"]["epoch"]))
+                reported.setdefault(ended, {})[int(c["result"]["epoch"])] = float(c["result"][metric])
         if m == "on_trial_add" and "bracket" in ev:
             bracket_of[str(t)] = ev["bracket"]
         elif m == "suggest" and c["ret"] is not None and not c["ret"]["new"] and "bracket" in ev:
@@ -112,6 +117,7 @@ def check(tr):
                     # decision: it paused or stopped there); kept for now: the latest level
                     allowed = {l for l in dl if l in rung_levels} | ({dl[-1]} if dl else set())
                     required = set(decided_at.get(ts, ())) | ({dl[-1]} if dl else set())
+                allowed = allowed | final_level.get(ts, set())
                 if not have <= allowed:
                     bad("R2.extra_levels", "trial %s: levels %s in the data set, policy %s allows %s" % (ts, sorted(have - allowed), policy, sorted(allowed)),
                         c["s1"], policy=policy)
